@@ -1,6 +1,6 @@
 """C16 - polynomial and linear-combination types form the free algebra they denote."""
 import e1_typestate, specs, e8_formulas, e16_polyshort, e24_lex
-import e33_scans
+import e33_scans, e34_lcinsert
 
 LEVEL = 'other'
 EXPLANATION = ('Typestate dataflow (clean/dirty, must-analysis over the MIR CFG incl. loops) for Lc (no zero coefficient stored) '
@@ -20,6 +20,8 @@ def run(ctx, rep):
     facts = ctx.facts()
     rep.rule('E33', e33_scans.__doc__.strip().split('\n')[0])
     e33_scans.run_for(facts, rep, 'polynomials', ['yui::types::poly'], 2)
+    rep.rule('E34', e34_lcinsert.__doc__.strip().split('\n')[0])
+    e34_lcinsert.run(facts, rep)
     import fixtures
     fixtures.run_controls(rep, ['E1'], lambda: ctx.reload())
     rep.rule('E1', e1_typestate.__doc__.strip().split('\n')[0])
